@@ -139,9 +139,10 @@ Definition oracle (c : case) : bool :=
       else if Bool.eqb prepend prepended && buf_valid buf
               && (prepended || (Z.of_nat (length x) <=? buf))
       then is_ok_eq d x
-      else not_panic e && not_panic d
+      else if buf_valid buf then not_panic e && not_panic d
+      else is_err d                                   (* an unusable buf_size is an error, never a panic *)
   | CLz4Frame buf x frame d =>
-      if buf_valid buf then is_ok_eq d x else not_panic d
+      if buf_valid buf then is_ok_eq d x else is_err d
   | CCharset repr label x e d =>
       if repr then is_ok_eq d x else not_panic e && not_panic d
   | CLibDec y dy => not_panic dy
